@@ -183,4 +183,138 @@ theorem mergeLinux_perm (a b : List Entry) : (mergeLinux a b).Perm (a ++ b) :=
 theorem mergePan_perm (a b : List Entry) : (mergePan a b).Perm (a ++ b) :=
   perm_parts a b _ (List.Perm.refl _)
 
+/-- Uniqueness of the split: `x ++ t` with `t` all `q` and `x` empty or ending in a non-`q` entry. -/
+theorem split_unique (q : Entry → Bool) (x t : List Entry) (ht : ∀ e ∈ t, q e = true)
+    (hx : x = [] ∨ ∃ init y, x = init ++ [y] ∧ q y = false) :
+    trailing q (x ++ t) = t ∧ upto q (x ++ t) = x := by
+  have hall : ∀ e ∈ t.reverse, q e = true := fun e he => ht e (List.mem_reverse.mp he)
+  unfold trailing upto
+  rw [List.reverse_append, List.takeWhile_append_of_pos hall, List.dropWhile_append_of_pos hall]
+  rcases hx with rfl | ⟨init, y, rfl, hy⟩
+  · simp
+  · simp [hy]
+
+/-- Inserting one more APPEND rule behind those already inserted (Linux, code as found). -/
+theorem insert_one_more (q : Entry → Bool) (top a app : List Entry) (e : Entry)
+    (happ : ∀ x ∈ app, q x = false)
+    (hx : app ≠ [] ∨ upto q a ≠ [] ∨ top = [] ∨ ∃ init y, top = init ++ [y] ∧ q y = false) :
+    insertBeforeTrailing q (top ++ insertBeforeTrailing q a app) [e] =
+      top ++ insertBeforeTrailing q a (app ++ [e]) := by
+  have hsplit : top ++ insertBeforeTrailing q a app = (top ++ upto q a ++ app) ++ trailing q a := by
+    simp [insertBeforeTrailing, List.append_assoc]
+  have hxx : (top ++ upto q a ++ app) = [] ∨ ∃ init y, (top ++ upto q a ++ app) = init ++ [y] ∧ q y = false := by
+    by_cases h1 : app = []
+    · subst h1
+      by_cases h2 : upto q a = []
+      · rw [h2]
+        rcases hx with h | h | h | h
+        · exact absurd rfl h
+        · exact absurd h2 h
+        · left; simp [h]
+        · right; obtain ⟨init, y, hy, hq⟩ := h; exact ⟨init, y, by simp [hy], hq⟩
+      · right
+        rcases upto_last q a with h | ⟨init, y, hy, hq⟩
+        · exact absurd h h2
+        · exact ⟨top ++ init, y, by simp [hy, List.append_assoc], hq⟩
+    · right
+      obtain ⟨init, y, hy⟩ : ∃ init y, app = init ++ [y] :=
+        ⟨app.dropLast, app.getLast h1, (List.dropLast_concat_getLast h1).symm⟩
+      refine ⟨top ++ upto q a ++ init, y, by simp [hy, List.append_assoc], happ y ?_⟩
+      rw [hy]; simp
+  have := split_unique q (top ++ upto q a ++ app) (trailing q a) (trailing_all q a) hxx
+  rw [hsplit]
+  show upto q _ ++ [e] ++ trailing q _ = top ++ (upto q a ++ (app ++ [e]) ++ trailing q a)
+  rw [this.1, this.2]
+  simp [List.append_assoc]
+
+theorem upto_ne_nil_of_exists (q : Entry → Bool) (a : List Entry) (h : ∃ x ∈ a, q x = false) : upto q a ≠ [] := by
+  obtain ⟨x, hx, hq⟩ := h
+  intro h0
+  have h1 := upto_append_trailing q a
+  rw [h0, List.nil_append] at h1
+  have hx' : x ∈ trailing q a := by rw [h1]; exact hx
+  have := trailing_all q a x hx'
+  simp [hq] at this
+
+/-- Hypothesis under which the Linux code as found behaves like the repaired code
+(complement of F-C18b, F-C18c and the Linux case of F-C18d); `top`, `app`: what was placed already. -/
+def LinuxOldOK (a top app b : List Entry) : Prop :=
+  (top ++ nonApp b).length ≤ 1 ∧
+  (∀ x ∈ (app ++ appPart b).dropLast, x.isDrop = false) ∧
+  (app ++ appPart b = [] ∨ (∃ x ∈ a, x.isDrop = false) ∨ ∀ p ∈ top ++ nonApp b, p.isDrop = false)
+
+theorem linuxOld_fold (a : List Entry) (b : List Entry) : ∀ (top app : List Entry), LinuxOldOK a top app b →
+    b.foldl linuxStepOld (top ++ insertBeforeTrailing Entry.isDrop a app) =
+      (nonApp b ++ top) ++ insertBeforeTrailing Entry.isDrop a (app ++ appPart b) := by
+  induction b with
+  | nil => intro top app _; simp [nonApp, appPart]
+  | cons e b ih =>
+    intro top app ⟨h1, h2, h3⟩
+    cases he : e.app with
+    | false =>
+      have hn : nonApp (e :: b) = e :: nonApp b := by simp [nonApp, he]
+      have ha : appPart (e :: b) = appPart b := by simp [appPart, he]
+      rw [hn] at h1 h3
+      rw [ha] at h2 h3
+      have htop : top = [] := by
+        cases top with
+        | nil => rfl
+        | cons t ts => simp at h1
+      have hnb : nonApp b = [] := by
+        cases hb : nonApp b with
+        | nil => rfl
+        | cons t ts => rw [hb, htop] at h1; simp at h1
+      subst htop
+      have key := ih [e] app ⟨by simp [hnb], h2, by
+        rcases h3 with h | h | h
+        · exact Or.inl h
+        · exact Or.inr (Or.inl h)
+        · refine Or.inr (Or.inr ?_)
+          intro p hp
+          apply h p
+          simpa [hnb] using hp⟩
+      simp only [List.foldl_cons, linuxStepOld, he, Bool.false_eq_true, if_false, List.nil_append]
+      rw [hn, ha, hnb]
+      rw [hnb] at key
+      simpa using key
+    | true =>
+      have hn : nonApp (e :: b) = nonApp b := by simp [nonApp, he]
+      have ha : appPart (e :: b) = e :: appPart b := by simp [appPart, he]
+      rw [hn] at h1 h3
+      rw [ha] at h2 h3
+      have happ : ∀ x ∈ app, x.isDrop = false := by
+        intro x hx
+        apply h2 x
+        rw [List.dropLast_append_of_ne_nil (by simp)]
+        exact List.mem_append_left _ hx
+      have hx : app ≠ [] ∨ upto Entry.isDrop a ≠ [] ∨ top = [] ∨ ∃ init y, top = init ++ [y] ∧ y.isDrop = false := by
+        rcases h3 with h | h | h
+        · simp at h
+        · exact Or.inr (Or.inl (upto_ne_nil_of_exists _ a h))
+        · cases top with
+          | nil => exact Or.inr (Or.inr (Or.inl rfl))
+          | cons t ts =>
+            have : ts = [] := by
+              cases ts with
+              | nil => rfl
+              | cons u us => simp at h1
+            subst this
+            exact Or.inr (Or.inr (Or.inr ⟨[], t, rfl, h t (by simp)⟩))
+      have step := insert_one_more Entry.isDrop top a app e happ hx
+      have key := ih top (app ++ [e]) ⟨h1, by simpa [List.append_assoc] using h2, by
+        rcases h3 with h | h | h
+        · simp at h
+        · exact Or.inr (Or.inl h)
+        · exact Or.inr (Or.inr h)⟩
+      simp only [List.foldl_cons, linuxStepOld, he, if_true]
+      rw [step, key, hn, ha]
+      simp [List.append_assoc]
+
+/-- Code as found = repaired code under `LinuxOldOK`. -/
+theorem mergeLinuxOld_eq (a b : List Entry) (h : LinuxOldOK a [] [] b) : mergeLinuxOld a b = mergeLinux a b := by
+  have := linuxOld_fold a b [] [] h
+  simp only [List.nil_append, insertBeforeTrailing_nil, List.append_nil] at this
+  unfold mergeLinuxOld mergeLinux
+  exact this
+
 end NA.C18
